@@ -146,6 +146,15 @@ CLAIMED = {
             "the rest untouched; a single 0->1 switch at the turning point; only owned columns are written, nothing "
             "in place; invalid options raise before writing. Median filtering and tie-breaking are bounded.",
             "3 C07"),
+    "C08": ("other", "contract-based deductive verification: index-range / fallback / frame / totality contracts on "
+            "compute_poc, the clip and the two closed-form estimators (reductions by their defining axioms), and "
+            "relational scale/offset invariance by self-composition (f and a*f+b in one path, lemma chain); bounded "
+            "stand-in for the four estimators built on Nelder-Mead fits and filters",
+            "For force arrays of any length: compute_poc returns a valid index of the original array, NaN falls back "
+            "to the middle of the clipped data, unknown methods raise, inputs are untouched; deviation-from-baseline "
+            "returns the first sample above mean + 2 max deviation and the same index for a*f+b (a>0); the Frechet "
+            "estimator is total and invariant for non-constant data. Accuracy and the fit-based estimators are "
+            "bounded (fractions measured on the pinned tree, stated in the code).", "3 C08"),
 }
 
 NOT_APPLICABLE = {
